@@ -500,6 +500,9 @@ func (o *genericScanCmdOpts) newIPPortGenerator() (reqgen scan.RequestGenerator)
 
 func parsePortRange(portsRange string) (r *scan.PortRange, err error) {
 	ports := strings.Split(portsRange, "-")
+	if len(ports) > 2 {
+		return nil, scan.ErrPortRange
+	}
 	var port uint64
 	if port, err = strconv.ParseUint(ports[0], 10, 16); err != nil {
 		return
